@@ -37,6 +37,7 @@ import (
 	"tunnox-core/internal/core/storage"
 	"tunnox-core/internal/core/types"
 	"tunnox-core/internal/packet"
+	"tunnox-core/internal/protocol/adapter"
 	"tunnox-core/internal/protocol/session"
 	"tunnox-core/internal/protocol/session/connstate"
 	"tunnox-core/internal/verifharness/common"
@@ -134,7 +135,24 @@ func parseCase(s string) (*kase, error) {
 			if e.dt, err = strconv.ParseInt(t[2:], 10, 64); err != nil || e.dt < 0 {
 				return nil, errors.New("bad tick")
 			}
-		case 'o', 'h', 'f', 'u', 'v', 'b', 'c':
+		case 'q', 'r': // split lookup: <node>.<client>
+			p := strings.Split(t[2:], ".")
+			if len(p) != 2 {
+				return nil, errors.New("bad lookup")
+			}
+			n, err1 := strconv.Atoi(p[0])
+			x, err2 := strconv.Atoi(p[1])
+			if err1 != nil || err2 != nil || n < 0 || n >= k.nn || x < 0 {
+				return nil, errors.New("bad lookup")
+			}
+			e.c.node, e.c.client = n, x
+		case 'x':
+			n, err := strconv.Atoi(t[2:])
+			if err != nil || n < 0 || n >= k.nn {
+				return nil, errors.New("bad node")
+			}
+			e.c.node = n
+		case 'o', 'h', 'f', 'u', 'v', 'b', 'c', 'e', 'd', 's', 'k':
 			if e.c, err = parseConn(t[2:]); err != nil {
 				return nil, err
 			}
@@ -148,7 +166,8 @@ func parseCase(s string) (*kase, error) {
 	}
 	if k.sched != "" {
 		n := len(k.evs)
-		if n < 2 || k.evs[n-1].code == 't' || k.evs[n-2].code == 't' || k.evs[n-1].c.node == k.evs[n-2].c.node {
+		bad := func(c byte) bool { return c == 't' || c == 'q' || c == 'r' || c == 'x' }
+		if n < 2 || bad(k.evs[n-1].code) || bad(k.evs[n-2].code) || k.evs[n-1].c.node == k.evs[n-2].c.node {
 			return nil, errors.New("sched: the last two events must be handler calls on different nodes")
 		}
 	}
@@ -260,10 +279,11 @@ func redisStore(i int) storage.Storage {
 // ------------------------------------------------------------------ executor
 
 type nodeEnv struct {
-	id  string
-	sm  *session.SessionManager
-	cs  *connstate.Store
-	rec *recorder
+	down bool // the session manager was shut down: its routing decision is not observed any more
+	id   string
+	sm   *session.SessionManager
+	cs   *connstate.Store
+	rec  *recorder
 }
 
 func nodeName(j int) string { return "n" + strconv.Itoa(j) }
@@ -315,6 +335,9 @@ func lookTok(node, connID string, err error) string {
 }
 
 func routeTok(n *nodeEnv, x int64) string {
+	if n.down {
+		return "X"
+	}
 	n.rec.take()
 	_, err := n.sm.SendCommandToClient(context.Background(), x, &packet.CommandPacket{CommandType: packet.ConfigGet, CommandId: "verif"}, 0)
 	asked := n.rec.take()
@@ -407,9 +430,30 @@ func runCase(k *kase) (res runResult) {
 		}
 	}()
 
+	lookups := map[[2]int]*pendingLookup{}
+	defer func() {
+		for _, p := range lookups {
+			p.finish()
+		}
+	}()
 	deliver := func(e event) error {
 		var herr error
 		switch e.code {
+		case 'q':
+			key := [2]int{e.c.node, e.c.client}
+			if old := lookups[key]; old != nil {
+				old.finish()
+			}
+			lookups[key] = startLookup(ctx, stores[e.c.node], nodeName(e.c.node), time.Duration(k.ttl)*time.Millisecond, int64(e.c.client))
+		case 'r':
+			key := [2]int{e.c.node, e.c.client}
+			p := lookups[key]
+			if p == nil {
+				herr = errors.New("no lookup in flight")
+				break
+			}
+			delete(lookups, key)
+			herr = p.finish().err
 		case 'o':
 			rw := &fakeRW{id: e.c.String()}
 			_, herr = nodes[e.c.node].sm.CreateConnection(rw, rw)
@@ -427,8 +471,29 @@ func runCase(k *kase) (res runResult) {
 		case 'b':
 			herr = nodes[e.c.node].sm.HandlePacket(&types.StreamPacket{ConnectionID: e.c.String(), Timestamp: time.Now(),
 				Packet: &packet.TransferPacket{PacketType: packet.Heartbeat}})
-		case 'c':
+		case 'c': // CloseConnection called directly
 			herr = nodes[e.c.node].sm.CloseConnection(e.c.String())
+		case 'e': // the adapter's read loop ended
+			adapter.VerifCleanupConnection(nodes[e.c.node].sm, e.c.String())
+		case 'd', 's': // Disconnect command / heartbeat-timeout sweep; reported: did this call close the connection
+			sm := nodes[e.c.node].sm
+			_, before := sm.GetConnection(e.c.String())
+			if e.code == 'd' {
+				sm.HandlePacket(&types.StreamPacket{ConnectionID: e.c.String(), Timestamp: time.Now(),
+					Packet: &packet.TransferPacket{PacketType: packet.JsonCommand,
+						CommandPacket: &packet.CommandPacket{CommandType: packet.Disconnect, CommandId: "verif-disc"}}})
+			} else {
+				sm.VerifSweepStale(e.c.String())
+			}
+			_, after := sm.GetConnection(e.c.String())
+			if !(before && !after) {
+				herr = errors.New("not closed by this call")
+			}
+		case 'k': // duplicate-login eviction of the node's other connection of the client
+			nodes[e.c.node].sm.KickOldControlConnection(int64(e.c.client), e.c.String())
+		case 'x': // session manager shutdown
+			nodes[e.c.node].sm.Close()
+			nodes[e.c.node].down = true
 		case 't':
 			d := time.Duration(e.dt) * time.Millisecond
 			if realClock(k.backend) {
